@@ -215,6 +215,13 @@ def extract_ir(view, outdir, scratch):
     r = _run(['llvm-link-14', '-o', allbc] + bcs)
     if r.returncode != 0:
         raise AnalysisBroken('llvm-link failed (view %s): %s' % (view, r.stderr[-2000:]))
+    # promote locals (references and pointer temporaries are allocas at -O0) so that a store through
+    # `T *&ref = global[i]` is seen as a store to the global
+    promoted = os.path.join(bcdir, 'all.m2r.bc')
+    r = _run(['opt-14', '-passes=mem2reg', allbc, '-o', promoted])
+    if r.returncode != 0:
+        raise AnalysisBroken('opt -passes=mem2reg failed (view %s): %s' % (view, r.stderr[-2000:]))
+    allbc = promoted
     out = os.path.join(outdir, 'IR.json')
     r = _run([os.path.join(TOOLS, 'opnir'), allbc, out])
     if r.returncode != 0 or not os.path.exists(out):
